@@ -1,4 +1,5 @@
 import P2.Driver.Json
+import P2.Driver.Binning
 import P2.Driver.Lang
 /-! Line-protocol driver of the model: one request per line on stdin, one response per line on stdout. -/
 open P2.Driver
@@ -6,6 +7,7 @@ open P2.Driver
 def handle (line : String) : String :=
   match splitTab line with
   | "JSON" :: args => handleJson args
+  | "BIN" :: args => handleBin args
   | "EVAL" :: args => handleEval args
   | "PING" :: _ => "PONG"
   | _ => "BADREQ"
